@@ -27,13 +27,14 @@ theorem take_append_len (a b : Bytes) : (a ++ b).take a.length = a := by
 
 /-! ### scheme -/
 
-theorem parseScheme_some (s rest : Bytes) (h : (58 : UInt8) ∉ s) :
+theorem parseScheme_some (s rest : Bytes) (h : (58 : UInt8) ∉ s) (hd : s.any isSchemeDelim = false) :
     parseScheme { rest := s ++ (58 :: 47 :: 47 :: rest) } =
       { uri := { scheme := some ⟨0, s.length⟩ }, state := .onAuthority, off := s.length + 3, rest := rest } := by
   have h1 : (s ++ (58 :: 47 :: 47 :: rest)).drop (s.length + 1) = 47 :: 47 :: rest := by
     rw [drop_append_len]; rfl
   have h2 : (s ++ (58 :: 47 :: 47 :: rest)).drop s.length = 58 :: 47 :: 47 :: rest := drop_append_len0 _ _
-  simp [parseScheme, memchr_append_cons _ _ h, h1, h2, Parser.advance]
+  have h3 : (s ++ (58 :: 47 :: 47 :: rest)).take s.length = s := take_append_len _ _
+  simp [parseScheme, memchr_append_cons _ _ h, h1, h2, h3, hd, Parser.advance]
 
 theorem parseScheme_none (rest : Bytes) (h : noSchemeLike rest = true) :
     parseScheme { rest := rest } = { state := .onAuthority, rest := rest } := by
@@ -43,9 +44,77 @@ theorem parseScheme_none (rest : Bytes) (h : noSchemeLike rest = true) :
   | none => rfl
   | some i =>
     rw [hm] at h
-    simp only [bne_iff_ne, ne_eq] at h
+    simp only [Bool.or_eq_true, bne_iff_ne, ne_eq] at h
     simp only
-    rw [if_neg h]
+    by_cases h47 : (rest.drop (i + 1)).head? = some 47
+    · rw [if_pos h47]
+      rcases h with h | h
+      · exact absurd h47 h
+      · rw [if_pos h]
+    · rw [if_neg h47]
+
+/-! ### a text assembled without scheme never looks as if it had one -/
+
+theorem noSchemeLike_append_of_not_mem (a b : Bytes) (ha : (58 : UInt8) ∉ a) (hb : noSchemeLike b = true) :
+    noSchemeLike (a ++ b) = true := by
+  unfold noSchemeLike at hb ⊢
+  rw [memchr_append_of_not_mem a b ha]
+  cases hm : memchr 58 b with
+  | none => rfl
+  | some i =>
+    rw [hm] at hb
+    simp only [Option.map_some]
+    have e1 : (a ++ b).drop (i + a.length + 1) = b.drop (i + 1) := by
+      have : i + a.length + 1 = a.length + (i + 1) := by omega
+      rw [this, drop_append_len]
+    have e2 : (a ++ b).take (i + a.length) = a ++ b.take i := by
+      rw [List.take_append]
+      have : i + a.length - a.length = i := by omega
+      rw [this, List.take_of_length_le (by omega)]
+    rw [e1, e2, List.any_append]
+    simp only [Bool.or_eq_true] at hb ⊢
+    rcases hb with hb | hb
+    · exact Or.inl hb
+    · exact Or.inr (Or.inr hb)
+
+theorem noSchemeLike_of_delim_prefix (a b : Bytes) (ha : (58 : UInt8) ∉ a) (hd : a.any isSchemeDelim = true) :
+    noSchemeLike (a ++ b) = true := by
+  unfold noSchemeLike
+  rw [memchr_append_of_not_mem a b ha]
+  cases hm : memchr 58 b with
+  | none => rfl
+  | some i =>
+    simp only [Option.map_some]
+    have e2 : (a ++ b).take (i + a.length) = a ++ b.take i := by
+      rw [List.take_append]
+      have : i + a.length - a.length = i := by omega
+      rw [this, List.take_of_length_le (by omega)]
+    rw [e2, List.any_append, hd]
+    simp
+
+theorem noSchemeLike_colon_first (x : UInt8) (l : Bytes) (hx : x ≠ 47) : noSchemeLike (58 :: x :: l) = true := by
+  simp [noSchemeLike, memchr, hx]
+
+/-- the first ':' lies in `u`, which has no '/', and `u` is followed by '@' -/
+theorem noSchemeLike_userinfo (u t : Bytes) (hc : (58 : UInt8) ∈ u) (h47 : (47 : UInt8) ∉ u) :
+    noSchemeLike (u ++ 64 :: t) = true := by
+  unfold noSchemeLike
+  rw [memchr_append_of_mem u _ hc]
+  cases hm : memchr 58 u with
+  | none => exact absurd hc (memchr_none hm)
+  | some j =>
+    have ⟨hj, _, _⟩ := memchr_some hm
+    simp only [Bool.or_eq_true, bne_iff_ne, ne_eq]
+    left
+    rw [List.drop_append]
+    cases hd : u.drop (j + 1) with
+    | nil =>
+      have : j + 1 - u.length = 0 := by omega
+      simp [this]
+    | cons y ys =>
+      have hy : y ∈ u := List.mem_of_mem_drop (by rw [hd]; simp)
+      have : y ≠ 47 := fun e => h47 (e ▸ hy)
+      simp [this]
 
 /-! ### authority: userinfo -/
 
@@ -165,24 +234,30 @@ theorem parseHostPort_v6_port (hoff : Nat) (host : Bytes) (p : Nat) (hp : p < 2 
 
 /-! ### what `Comp.ok` says -/
 
+theorem isSchemeDelim_mem {x : UInt8} (h : isSchemeDelim x = true) : x ∈ ([47, 63, 35, 64, 91, 93] : Bytes) := by
+  simp only [isSchemeDelim, Bool.or_eq_true, beq_iff_eq] at h
+  rcases h with ((((h | h) | h) | h) | h) | h <;> simp [h]
+
 structure OkFacts (c : Comp) : Prop where
-  scheme : ∀ s, c.scheme = some s → (58 : UInt8) ∉ s
-  noscheme : c.scheme = none → noSchemeLike c.restText = true
+  scheme : ∀ s, c.scheme = some s → (58 : UInt8) ∉ s ∧ s.any isSchemeDelim = false
   ui : ∀ u, c.userinfo = some u → (64 : UInt8) ∉ u ∧ (47 : UInt8) ∉ u ∧ (63 : UInt8) ∉ u
   host6 : c.ipv6 = true → (93 : UInt8) ∉ c.host ∧ (47 : UInt8) ∉ c.host ∧ (63 : UInt8) ∉ c.host ∧ (64 : UInt8) ∉ c.host
   host4 : c.ipv6 = false → (47 : UInt8) ∉ c.host ∧ (63 : UInt8) ∉ c.host ∧ (58 : UInt8) ∉ c.host ∧
     (64 : UInt8) ∉ c.host ∧ (91 : UInt8) ∉ c.host
   port : ∀ p, c.port = some p → p < 2 ^ 32
   path : c.path = [] ∨ ((∃ t, c.path = 47 :: t) ∧ (63 : UInt8) ∉ c.path)
-  query : c.path = [] → ∀ q, c.query = some q → (47 : UInt8) ∉ q
   nonempty : c.restText ≠ []
 
 theorem okFacts {c : Comp} (h : c.ok = true) : OkFacts c := by
   simp only [Comp.ok, Bool.and_eq_true] at h
-  obtain ⟨⟨⟨⟨⟨⟨h1, h2⟩, h3⟩, h4⟩, h5⟩, h6⟩, h7⟩ := h
-  refine ⟨?_, ?_, ?_, ?_, ?_, ?_, ?_, ?_, ?_⟩
-  · intro s hs; rw [hs] at h1; exact noneOf_not_mem h1 (by simp)
-  · intro hs; rw [hs] at h1; exact h1
+  obtain ⟨⟨⟨⟨⟨h1, h2⟩, h3⟩, h4⟩, h5⟩, h7⟩ := h
+  refine ⟨?_, ?_, ?_, ?_, ?_, ?_, ?_⟩
+  · intro s hs; rw [hs] at h1
+    refine ⟨noneOf_not_mem h1 (by simp), ?_⟩
+    rw [List.any_eq_false]
+    intro x hx hd
+    have hm := isSchemeDelim_mem hd
+    exact noneOf_not_mem h1 (List.mem_cons_of_mem 58 hm) hx
   · intro u hu; rw [hu] at h2
     exact ⟨noneOf_not_mem h2 (by simp), noneOf_not_mem h2 (by simp), noneOf_not_mem h2 (by simp)⟩
   · intro hv; rw [hv] at h3; simp only [if_true] at h3
@@ -199,11 +274,56 @@ theorem okFacts {c : Comp} (h : c.ok = true) : OkFacts c := by
       simp only [List.isEmpty_cons, Bool.false_or, List.head?_cons, Bool.and_eq_true, beq_iff_eq,
         Option.some.injEq] at h5
       exact Or.inr ⟨⟨t, by rw [h5.1]⟩, noneOf_not_mem h5.2 (by simp)⟩
-  · intro hp q hq
-    rw [hp, hq] at h6
-    simp only [List.isEmpty_nil, Bool.not_true, Bool.false_or] at h6
-    exact noneOf_not_mem h6 (by simp)
   · intro he; rw [he] at h7; simp at h7
+
+/-- under `Comp.ok` the text after the scheme never looks as if it began with a scheme: no extra
+condition is needed for tuples without scheme -/
+theorem noSchemeLike_rest {c : Comp} (f : OkFacts c) : noSchemeLike c.restText = true := by
+  unfold Comp.restText Comp.authText Comp.uiText
+  cases hu : c.userinfo with
+  | some u =>
+    have ⟨_, h47, _⟩ := f.ui u hu
+    by_cases hc : (58 : UInt8) ∈ u
+    · have e : u ++ [64] ++ (c.hostText ++ c.portText) ++ (c.path ++ c.queryText) =
+          u ++ 64 :: (c.hostText ++ c.portText ++ (c.path ++ c.queryText)) := by simp
+      rw [e]
+      exact noSchemeLike_userinfo u _ hc h47
+    · have e : u ++ [64] ++ (c.hostText ++ c.portText) ++ (c.path ++ c.queryText) =
+          (u ++ [64]) ++ (c.hostText ++ c.portText ++ (c.path ++ c.queryText)) := by simp
+      rw [e]
+      exact noSchemeLike_of_delim_prefix _ _ (by simp [hc]) (by simp [isSchemeDelim])
+  | none =>
+    simp only [List.nil_append]
+    unfold Comp.hostText
+    cases hv : c.ipv6 with
+    | true =>
+      simp only [if_true]
+      exact noSchemeLike_of_delim_prefix [91] _ (by simp) (by simp [isSchemeDelim])
+    | false =>
+      have ⟨_, _, h58, _, _⟩ := f.host4 hv
+      simp only [Bool.false_eq_true, if_false, List.append_assoc]
+      apply noSchemeLike_append_of_not_mem _ _ h58
+      unfold Comp.portText
+      cases hp : c.port with
+      | some p =>
+        cases hd : decDigits p with
+        | nil => exact absurd hd (decDigits_ne_nil p)
+        | cons d ds =>
+          have hdig := decDigits_digits p d (by rw [hd]; simp)
+          have := (digit_ne_delim hdig).1
+          simp only [List.cons_append, hd]
+          exact noSchemeLike_colon_first d _ this
+      | none =>
+        simp only [List.nil_append]
+        rcases f.path with hpath | ⟨⟨t, hpath⟩, _⟩
+        · rw [hpath]
+          simp only [List.nil_append]
+          unfold Comp.queryText
+          cases c.query with
+          | none => rfl
+          | some q => exact noSchemeLike_of_delim_prefix [63] q (by simp) (by simp [isSchemeDelim])
+        · rw [hpath]
+          exact noSchemeLike_of_delim_prefix [47] _ (by simp) (by simp [isSchemeDelim])
 
 /-- `hostText ++ portText` contains none of '/', '?', '@' -/
 theorem hostPort_no_delim {c : Comp} (f : OkFacts c) :
@@ -350,26 +470,43 @@ theorem run_from_auth {c : Comp} (f : OkFacts c) (sch : Option View) (o0 : Nat) 
       obtain ⟨rfl, rfl, rfl, rfl, rfl⟩ := hk
       simp [hpath, hq, Comp.queryText, Nat.add_assoc]
     | some q =>
-      have hq47 := f.query hpath q hq
+      -- the query may contain '/': the '?' comes first
       have hrest : c.restText = c.authText ++ 63 :: q := by simp [Comp.restText, hpath, Comp.queryText, hq]
-      have h47 : (47 : UInt8) ∉ c.authText ++ 63 :: q := by
-        simp only [List.mem_append, List.mem_cons, not_or]
-        exact ⟨ha47, by decide, hq47⟩
-      simp only [hrest, stepParser, parseAuthority, memchr_of_not_mem h47, memchr_append_cons _ _ ha63,
-        Parser.advance, take_append_len, drop_append_len0, parseAuthBody_spec f, parseQuery]
-      have hk := withAuth_keep c { scheme := sch, authority := some ⟨o0, c.authText.length⟩ } o0
-      generalize withAuth c { scheme := sch, authority := some ⟨o0, c.authText.length⟩ } o0 = U at hk ⊢
-      obtain ⟨sc, au, ui, us, pw, ho, po, pa, qu, pq⟩ := U
-      simp only at hk
-      obtain ⟨rfl, rfl, rfl, rfl, rfl⟩ := hk
-      simp [hpath, hq, Comp.queryText, Nat.add_assoc]
+      have h47 : memchr 47 (c.authText ++ 63 :: q) = (memchr 47 q).map (· + (c.authText.length + 1)) := by
+        rw [memchr_append_of_not_mem _ _ ha47]
+        simp only [memchr, show ¬ ((63 : UInt8) = 47) by decide, if_false]
+        cases memchr 47 q <;> simp; omega
+      cases h47q : memchr 47 q with
+      | none =>
+        rw [h47q] at h47
+        simp only [hrest, stepParser, parseAuthority, h47, Option.map_none, memchr_append_cons _ _ ha63,
+          authorityUpTo, Parser.advance, take_append_len, drop_append_len0, parseAuthBody_spec f, parseQuery]
+        have hk := withAuth_keep c { scheme := sch, authority := some ⟨o0, c.authText.length⟩ } o0
+        generalize withAuth c { scheme := sch, authority := some ⟨o0, c.authText.length⟩ } o0 = U at hk ⊢
+        obtain ⟨sc, au, ui, us, pw, ho, po, pa, qu, pq⟩ := U
+        simp only at hk
+        obtain ⟨rfl, rfl, rfl, rfl, rfl⟩ := hk
+        simp [hpath, hq, Comp.queryText, Nat.add_assoc]
+      | some k =>
+        rw [h47q] at h47
+        have hlt : ¬ k + (c.authText.length + 1) < c.authText.length := by omega
+        simp only [hrest, stepParser, parseAuthority, h47, Option.map_some, memchr_append_cons _ _ ha63, hlt,
+          if_false, authorityUpTo, Parser.advance, take_append_len, drop_append_len0, parseAuthBody_spec f, parseQuery]
+        have hk := withAuth_keep c { scheme := sch, authority := some ⟨o0, c.authText.length⟩ } o0
+        generalize withAuth c { scheme := sch, authority := some ⟨o0, c.authText.length⟩ } o0 = U at hk ⊢
+        obtain ⟨sc, au, ui, us, pw, ho, po, pa, qu, pq⟩ := U
+        simp only at hk
+        obtain ⟨rfl, rfl, rfl, rfl, rfl⟩ := hk
+        simp [hpath, hq, Comp.queryText, Nat.add_assoc]
   · -- path starting with '/'
     have hp63' : (63 : UInt8) ∉ 47 :: t := hpath ▸ hp63
     cases hq : c.query with
     | none =>
       have hrest : c.restText = c.authText ++ 47 :: t := by simp [Comp.restText, hpath, Comp.queryText, hq]
-      simp only [hrest, stepParser, parseAuthority, memchr_append_cons _ _ ha47,
-        Parser.advance, take_append_len, drop_append_len0, parseAuthBody_spec f, parsePath,
+      have h63 : (63 : UInt8) ∉ c.authText ++ 47 :: t := by
+        simp only [List.mem_append, not_or]; exact ⟨ha63, hp63'⟩
+      simp only [hrest, stepParser, parseAuthority, memchr_append_cons _ _ ha47, memchr_of_not_mem h63,
+        authorityUpTo, Parser.advance, take_append_len, drop_append_len0, parseAuthBody_spec f, parsePath,
         memchr_of_not_mem hp63']
       have hk := withAuth_keep c { scheme := sch, authority := some ⟨o0, c.authText.length⟩ } o0
       generalize withAuth c { scheme := sch, authority := some ⟨o0, c.authText.length⟩ } o0 = U at hk ⊢
@@ -383,11 +520,15 @@ theorem run_from_auth {c : Comp} (f : OkFacts c) (sch : Option View) (o0 : Nat) 
       have hm : memchr 63 (47 :: (t ++ 63 :: q)) = some (t.length + 1) := by
         have := memchr_append_cons (47 :: t) q hp63'
         simpa using this
+      have hm2 : memchr 63 (c.authText ++ 47 :: (t ++ 63 :: q)) = some (t.length + 1 + c.authText.length) := by
+        rw [memchr_append_of_not_mem _ _ ha63, hm]; rfl
+      have hlt : c.authText.length < t.length + 1 + c.authText.length := by omega
       have hdq : (47 :: (t ++ 63 :: q)).drop (t.length + 1) = 63 :: q := by
         have := drop_append_len0 (47 :: t) (63 :: q)
         simpa using this
-      simp only [hrest, stepParser, parseAuthority, memchr_append_cons _ _ ha47,
-        Parser.advance, take_append_len, drop_append_len0, parseAuthBody_spec f, parsePath, hm, hdq, parseQuery]
+      simp only [hrest, stepParser, parseAuthority, memchr_append_cons _ _ ha47, hm2, hlt, if_true,
+        authorityUpTo, Parser.advance, take_append_len, drop_append_len0, parseAuthBody_spec f, parsePath, hm, hdq,
+        parseQuery]
       have hk := withAuth_keep c { scheme := sch, authority := some ⟨o0, c.authText.length⟩ } o0
       generalize withAuth c { scheme := sch, authority := some ⟨o0, c.authText.length⟩ } o0 = U at hk ⊢
       obtain ⟨sc, au, ui, us, pw, ho, po, pa, qu, pq⟩ := U
@@ -408,7 +549,7 @@ theorem runParser_assemble {c : Comp} (h : c.ok = true) :
     have h0 : stepParser { rest := c.schemeText ++ c.restText } =
         { uri := { scheme := none }, state := .onAuthority, off := 0, rest := c.restText } := by
       simp only [Comp.schemeText, hs, List.nil_append]
-      exact parseScheme_none _ (f.noscheme hs)
+      exact parseScheme_none _ (noSchemeLike_rest f)
     rw [h0]
     have := run_from_auth f none 0
     simpa [Comp.schemeText, hs] using this
@@ -416,7 +557,7 @@ theorem runParser_assemble {c : Comp} (h : c.ok = true) :
     have h0 : stepParser { rest := c.schemeText ++ c.restText } =
         { uri := { scheme := some ⟨0, s.length⟩ }, state := .onAuthority, off := s.length + 3, rest := c.restText } := by
       simp only [Comp.schemeText, hs]
-      have := parseScheme_some s c.restText (f.scheme s hs)
+      have := parseScheme_some s c.restText (f.scheme s hs).1 (f.scheme s hs).2
       simpa [stepParser] using this
     rw [h0]
     have := run_from_auth f (some ⟨0, s.length⟩) (s.length + 3)
